@@ -118,7 +118,7 @@ func (b *imageBuilder) keep(path string, block int) bool {
 	b.nitem++
 	if b.count {
 		b.items = append(b.items, UnsyncedItem{path, block})
-		return false
+		return true // descend into everything so that all items are listed
 	}
 	switch b.spec.Mode {
 	case "none":
